@@ -182,6 +182,8 @@ def mk_case(groups, trailing, kind, sites=False, rng=None, witness_of=None, name
 
 
 def job_of(c):
+    if c.get("path"):
+        return {"op": "c06.table_file", "path": c["path"], "names": c["names"]}
     if c["sites"]:
         return {"op": "c06.sites", "domain_text": c["domain_text"], "names": c["names"], "objects": c["objects"],
                 "kinds": c["kinds"]}
@@ -311,7 +313,7 @@ def fixture_sections(limit=None):
     return out[:limit] if limit else out
 
 
-def build_cases(rng, tier):
+def build_cases(rng, tier, seed=0):
     cases = []
     stats = Counter()
     # 0. recorded findings' witnesses
@@ -343,6 +345,11 @@ def build_cases(rng, tier):
     # 2. fixtures shipped with the repository
     for path, gs, tr in fixture_sections(12 if tier == "quick" else None):
         cases.append(mk_case(gs, tr, "fixture", sites=False))
+        # ... and the shipped file itself, parsed as it is (whatever else it contains)
+        fc = mk_case(gs, tr, "fixture-file", sites=False)
+        fc["path"] = str(Path(REPO, path))
+        fc["fixture"] = path
+        cases.append(fc)
         stats["fixture_sections"] += 1
     # 3. exhaustive forests x regroupings x permutations of the lines
     fs = forests()
@@ -352,7 +359,8 @@ def build_cases(rng, tier):
     for fi, par in enumerate(fs):
         rgs = regroupings(par)
         stats["regroupings"] += len(rgs)
-        site_budget = 1 if tier == "quick" else None
+        # quick: a full site case for every other forest (which half rotates with the seed)
+        site_budget = (1 if (fi + seed) % 2 == 0 else 0) if tier == "quick" else None
         for ri, (lines, trailing) in enumerate(rgs):
             nperm = math.factorial(len(lines))
             n_arr += nperm
@@ -360,7 +368,7 @@ def build_cases(rng, tier):
                 perms = itertools.permutations(lines)
             else:
                 # quick: a sample of the permutations of a sample of the regroupings
-                if rng.random() > min(1.0, 24.0 / len(rgs)):
+                if rng.random() > min(1.0, 14.0 / len(rgs)):
                     continue
                 perms = [tuple(rng.sample(lines, len(lines))) for _ in range(1 if nperm < 6 else 2)]
             for perm in perms:
@@ -429,17 +437,26 @@ def run(args):
         data = json.load(open(args.replay))
         cases, stats, exhaustive = [data["input"]["case"]], Counter(), False
     else:
-        cases, stats, exhaustive = build_cases(rng, args.tier)
+        cases, stats, exhaustive = build_cases(rng, args.tier, args.seed)
     hashseeds = [0] if args.tier == "quick" else [0]
+    import time as _time
+    _t0 = _time.time()
     results = run_impl([job_of(c) for c in cases], hashseed=hashseeds[0] + args.seed)
+    _t_impl = _time.time() - _t0
+    # a shipped file that raises for reasons of its own (e.g. starcraft_domain.pddl) says nothing about its types section
+    skipped_files = [c["fixture"] for c, r in zip(cases, results) if c.get("path") and "raised" in r]
+    keep = [i for i, (c, r) in enumerate(zip(cases, results)) if not (c.get("path") and "raised" in r)]
+    cases, results = [cases[i] for i in keep], [results[i] for i in keep]
     records = []
     for c, res in zip(cases, results):
         records.append({"lit": case_lit(c, res), "input": {"case": c, "implementation": res},
                         "nontrivial": nontrivial(c), "witness_of": c.get("witness_of"), "klass": c.get("klass")})
     verdicts, info = run_case_shards(PROP, "Corr.C06", [r["lit"] for r in records], shard_size=300,
                                      max_bytes=110_000)
+    _t_coq = _time.time() - _t0 - _t_impl
     decide(rep, PROP, "Corr.C06", records, verdicts, info, explain_expr="explain %s")
     cov = rep.coverage
+    cov["phase_seconds"] = {"implementation": round(_t_impl, 1), "coq_case_shards": round(_t_coq, 1)}
     cov["input_distribution"] = dict(Counter(c["kind"] for c in cases))
     cov["outcomes"] = {"parsed": sum(1 for r in results if "raised" not in r),
                        "rejected": sum(1 for r in results if "raised" in r)}
@@ -458,6 +475,7 @@ def run(args):
     cov["table_bits"] = {"true": sum(r.get("table", "").count("1") for r in results),
                          "false": sum(r.get("table", "").count("0") for r in results)}
     cov["scope"] = dict(stats)
+    cov["fixture_files_skipped_because_they_raise"] = skipped_files
     cov["exhaustive"] = bool(exhaustive and not args.replay)
     cov["rule"] = ("all unlabelled type forests with <= 6 types, depth <= 4, <= 4 children per node (%s forests); each written in "
                    "every regrouping of its declaration lines (children of a parent split into groups in every way; a root either in a "
@@ -470,7 +488,7 @@ def run(args):
                    "repository's fixture domains.  Non-trivial: some type has a declared parent other than object (depth >= 2); distinct by input hash."
                    % (stats.get("forests", "-"),
                       "EVERY permutation" if exhaustive else "a sample of the permutations",
-                      "one arrangement per regrouping" if args.tier == "thorough" else "one arrangement per forest"))
+                      "one arrangement per regrouping" if args.tier == "thorough" else "one arrangement for every other forest, the half rotating with the seed"))
     cov["samples"] = [{k: c[k] for k in ("groups", "trailing", "kind")} for c in cases[:2] + cases[len(cases) // 2:len(cases) // 2 + 2] + cases[-1:]]
     cov["explanation"] = ("theorems C06_* (Props/C06.v) proved on the Coq model for all sections; model tied to /repo by the cases above, "
                           "spec oracle = Spec.Types.closure_b evaluated inside Coq")
